@@ -54,11 +54,16 @@ def _strip(case):
     return {k: v for k, v in case.items() if k not in ("labels",)}
 
 
-def check_cli(cr, ctx, out_fmt):
+def check_cli(cr, ctx, out_fmt, optimised=False):
     from vf import cli_runs
 
     ctx.case()
-    res = cli_runs.run_pretext_to_asm(cr, out_name=f"out.{ {'tpf': 'tpf', 'agp': 'agp', 'fa': 'fa'}[out_fmt] }")
+    out_name = f"out.{ {'tpf': 'tpf', 'agp': 'agp', 'fa': 'fa'}[out_fmt] }"
+    if optimised:
+        # a fresh interpreter with assertions compiled away (python -O): the safety nets must still be there
+        res = cli_runs.run_pretext_to_asm(cr, out_name=out_name, inproc=False, env_extra={"PYTHONOPTIMIZE": "1"})
+    else:
+        res = cli_runs.run_pretext_to_asm(cr, out_name=out_name)
     if res["exit_code"] != 0:
         ctx.count(f"cli:error-exit:{out_fmt}")
         return
@@ -88,6 +93,23 @@ def run_cli(shard, ctx):
         rng = rng_for(shard["seed"], "c01cli", shard["index"], i)
         mode = i % 4
         d = scratch / f"c{i}"
+        if i % 5 == 4:
+            # an inconsistent (hostile) map through the CLI under python -O: an error exit or an exact partition
+            from vf import workloads
+            from vf.gen import pv as gpv
+
+            hc = workloads.make_case(shard["seed"], shard["index"], i, "hostile", {})
+            d.mkdir(parents=True, exist_ok=True)
+            (d / "input.agp").write_text(agp_ref.format({"header": [], "scaffolds": hc["input"]}))
+            (d / "pretext.agp").write_text(gpv.pretext_agp_text(hc["pretext"], hc["t"]))
+            cr = {"dir": d, "assembly_file": d / "input.agp", "pretext_file": d / "pretext.agp", "fasta_bytes": None, "t": hc["t"], "input": hc["input"],
+                  "pretext": hc["pretext"], "design": None, "pieces": None, "labels": hc["labels"], "prefix": "SUPER_"}
+            ctx.count("cli:hostile-map-under-python-O")
+            try:
+                check_cli(cr, ctx, "agp", optimised=True)
+            finally:
+                cli_runs.cleanup(cr)
+            continue
         if mode == 3:
             # two haplotypes, neither of them "Primary": one output file per haplotype (named after the lower-cased key)
             cr = cli_runs.text_case(rng, d, fmt="agp", tagged=True, two_hap=True, unprefixed=rng.random() < 0.5, primary=False)
@@ -149,6 +171,7 @@ def gates(c, tier):
         "partition-ok:cli-files": 20,
         "cli:primary-mode-with-several-other-assemblies": 3,
         "cli:name-spelled-haplotype-seen-before-its-tag": 3,
+        "cli:hostile-map-under-python-O": 40,
         "out:multi-assembly": 100,
         "out:with-cuts": 300,
         "label:in:both-strands": 500,
